@@ -179,13 +179,13 @@ def move_agent(
         action,
     )
 
-    try:
-        obj = state.grid[next_position]
-    except IndexError:
-        pass
-    else:
-        if not obj.blocks_movement:
-            state.agent.position = next_position
+    # NOTE: negative indices wrap around, so `IndexError` is not a bounds test
+    if not state.grid.area.contains(next_position):
+        return
+
+    obj = state.grid[next_position]
+    if not obj.blocks_movement:
+        state.agent.position = next_position
 
 
 @transition_function_registry.register
